@@ -61,6 +61,24 @@ Qed.
 Print Assumptions served_connection_is_the_selection.
 
 (* hot reload: a successful reload switches everything at once, a failed one changes nothing *)
+(* the QUIC listener (Model/TlsDemux.v select_quic over the fact QUIC_SERVES_THE_SELECTION_OR_BOOTSTRAP): with HTTP/3 enabled a
+   connection whose SNI designates an entry is served as that entry - its channel, its certificate identity, its credentials -
+   over HTTP/3; one whose SNI designates nothing (or is absent) is served from the bootstrap context (a main host's tunnel
+   channel), which the property forbids on TCP only; nothing else than HTTP/3 is ever chosen there *)
+Theorem quic_serves_the_designated_entry :
+  (forall c boot x s ch i creds, c_h3 c = true -> designated c (x :: s) = Some (ch, i, creds) ->
+     select_quic QUIC_SERVES_THE_SELECTION_OR_BOOTSTRAP c boot (Some (x :: s)) =
+     {| m_channel := ch; m_proto := H3; m_host := i; m_creds := creds |})
+  /\ (forall c boot sni, match sni with Some s => designated c s = None | None => True end ->
+        select_quic QUIC_SERVES_THE_SELECTION_OR_BOOTSTRAP c boot sni = bootstrap boot)
+  /\ (forall c boot sni, m_proto (select_quic QUIC_SERVES_THE_SELECTION_OR_BOOTSTRAP c boot sni) = H3).
+Proof.
+  split; [exact quic_serves_designated_entry_proof|].
+  split; [exact (quic_undesignated_is_bootstrap_proof QUIC_SERVES_THE_SELECTION_OR_BOOTSTRAP)|].
+  exact (quic_always_h3_proof QUIC_SERVES_THE_SELECTION_OR_BOOTSTRAP).
+Qed.
+Print Assumptions quic_serves_the_designated_entry.
+
 Theorem reload_atomic :
   (forall cur c loadable,
       fst (dstep cur (DReload c loadable)) = (if valid_hosts c && loadable then c else cur))
